@@ -147,6 +147,7 @@ type Exec struct {
 	recvDepth int
 	recoverVal string
 	recovered  bool
+	loopHeads  map[int]map[string]loopHeadMem
 	tmCache    *tmInfo
 	ghostTypes map[string]types.Type
 }
@@ -464,6 +465,19 @@ func intRange(w int, signed bool) (string, string) {
 		return "0", "4294967295"
 	}
 	return "0", "18446744073709551615"
+}
+
+// wfBySort: type invariant of a value known only by its SMT sort.
+func (e *Exec) wfBySort(st *State, term, srt string) string {
+	switch srt {
+	case "Slice":
+		return e.wf(st, Val{T: types.NewSlice(types.Typ[types.Uint8]), S: term})
+	case "Str":
+		return e.wf(st, Val{T: types.Typ[types.String], S: term})
+	case "Iface":
+		return e.wf(st, Val{T: types.NewInterfaceType(nil, nil), S: term})
+	}
+	return "true"
 }
 
 func (e *Exec) assumeWF(st *State, v Val) {
